@@ -162,8 +162,29 @@ def _walk(ctx, fn, cfg, path, env0=None):
         snap = dict(env)
         ev = Evaluator(env=env, const_of=const_of)
         st = node.ast
+        root = getattr(st, "test", None) if node.kind == "test" else (getattr(st, "value", None) if node.kind in ("stmt", "return") else None)
+        if root is not None:
+            for nx in reversed([n_ for n_ in ast.walk(root) if isinstance(n_, ast.NamedExpr) and isinstance(n_.target, ast.Name)]):
+                env[nx.target.id] = Evaluator(env=env, const_of=const_of).ev(nx.value)
         if node.kind == "stmt":
-            if isinstance(st, ast.Assign):
+            if isinstance(st, ast.Assign) and len(st.targets) == 1 and isinstance(st.targets[0], (ast.Tuple, ast.List)) \
+                    and isinstance(st.value, (ast.ListComp, ast.GeneratorExp)) and len(st.value.generators) == 1 \
+                    and not st.value.generators[0].ifs and isinstance(st.value.generators[0].target, ast.Name):
+                g_ = st.value.generators[0]
+                it_ = ev.ev(g_.iter)
+                for i_, t_ in enumerate(st.targets[0].elts):
+                    d_ = dotted(t_) if isinstance(t_, (ast.Name, ast.Attribute)) else None
+                    if d_:
+                        e2_ = dict(env)
+                        e2_[g_.target.id] = Term.atom(f"sub({it_.key()},{i_})")
+                        env[d_] = Evaluator(env=e2_, const_of=const_of).ev(st.value.elt)
+            elif isinstance(st, ast.Assign) and len(st.targets) == 1 and isinstance(st.targets[0], (ast.Tuple, ast.List)):
+                v = ev.ev(st.value)
+                for i_, t_ in enumerate(st.targets[0].elts):
+                    d_ = dotted(t_) if isinstance(t_, (ast.Name, ast.Attribute)) else None
+                    if d_:
+                        env[d_] = Term.atom(f"sub({v.key()},{i_})")
+            elif isinstance(st, ast.Assign):
                 v = ev.ev(st.value)
                 for t in st.targets:
                     d = dotted(t) if isinstance(t, (ast.Name, ast.Attribute)) else None
